@@ -3,6 +3,7 @@ import Nstd.Sync.LemmasRun
 import Nstd.Sync.LiveSem
 import Nstd.Generated.SyncCfg
 import Nstd.Generated.SyncMonitorOrder
+import Nstd.Generated.SyncShape
 /-
   Property C11 — TIE BY TRANSLATION of the control flow of Mutex / Signal / Monitor.
 
@@ -61,7 +62,7 @@ theorem mutex_step_is_translated_code (s : Mutex.St) (t : Tid) (s' : Mutex.St) :
       f.after n (Mutex.result s t) true = some e ∧ e.store = none ∧
       ∃ v, e.next = .ret v ∧ s'.pc t = .idle ∧ s'.ret t = some (retVal v)) ∧
     (∀ op, Mutex.step s t (.call op) = some s' →
-      (Mutex.fnOf op).entry true = some ⟨none, false, .node 0⟩ ∧ (Mutex.fnOf op).entry false = some ⟨none, false, .node 0⟩ ∧
+      (Mutex.fnOf op).entry true = some ⟨none, false, false, .node 0⟩ ∧ (Mutex.fnOf op).entry false = some ⟨none, false, false, .node 0⟩ ∧
       Mutex.at (s'.pc t) = some (Mutex.fnOf op, 0)) := by
   refine ⟨?_, ?_⟩
   · intro alt hs
@@ -92,11 +93,12 @@ theorem mutex_step_is_translated_code (s : Mutex.St) (t : Tid) (s' : Mutex.St) :
 
 def Signal.waitFn (dl : Option Deadline) : Fn := if dl.isSome then SyncCfg.signal_waitT else SyncCfg.signal_wait
 
-def Signal.at : Signal.Pc → Option (Fn × Nat)
+/-- `sk` = the variant of `set()` of this instance (`St.setSkips`): with the skip the unlock is discovered before the broadcast -/
+def Signal.at (sk : Bool) : Signal.Pc → Option (Fn × Nat)
   | .idle => none
   | .setLock => some (SyncCfg.signal_set, 0)
-  | .setBcast => some (SyncCfg.signal_set, 1)
-  | .setUnlock => some (SyncCfg.signal_set, 2)
+  | .setBcast => some (SyncCfg.signal_set, if sk then 2 else 1)
+  | .setUnlock => some (SyncCfg.signal_set, if sk then 1 else 2)
   | .resetLock => some (SyncCfg.signal_reset, 0)
   | .resetUnlock => some (SyncCfg.signal_reset, 1)
   | .wLock dl => some (Signal.waitFn dl, 0)
@@ -164,19 +166,24 @@ theorem Signal.pcWf_reach {set : Bool} {now spur : Nat} {s : Signal.St} (h : Sig
     ∀ u, Signal.PcWf (s.pc u) := by
   induction h with
   | init => intro u; simp [Signal.init, Signal.PcWf]
+  | initP _ _ => intro u; simp [Signal.init, Signal.PcWf]
   | step _ hs ih => exact Signal.pcWf_step ih hs
 
-theorem signal_step_is_translated_code (s : Signal.St) (t : Tid) (s' : Signal.St) (hwf : Signal.PcWf (s.pc t)) :
-    (∀ alt, Signal.step s t (.run alt) = some s' → ∃ f n, Signal.at (s.pc t) = some (f, n) ∧
+theorem signal_step_is_translated_code (s : Signal.St) (t : Tid) (s' : Signal.St) (hwf : Signal.PcWf (s.pc t))
+    (hsk : s.setSkips = SyncShape.signalSetSkips) (hlz : s.lazyDl = SyncShape.signalLazyDeadline) :
+    (∀ alt, Signal.step s t (.run alt) = some s' → ∃ f n, Signal.at s.setSkips (s.pc t) = some (f, n) ∧
       f.callAt n = some (Signal.callOf (s.pc t)) ∧
       match Signal.completes (s.pc t) with
-      | none => Signal.at (s'.pc t) = some (f, n) ∧ s'.flag = s.flag ∧ (s'.pc t).dlOf = (s.pc t).dlOf
+      | none => Signal.at s.setSkips (s'.pc t) = some (f, n) ∧ s'.flag = s.flag ∧ (s'.pc t).dlOf = (s.pc t).dlOf
       | some ok => ∃ e, f.after n ok s.flag = some e ∧ s'.flag = e.store.getD s.flag ∧
           match e.next with
-          | .node m => Signal.at (s'.pc t) = some (f, m) ∧ (s'.pc t).dlOf = (s.pc t).dlOf
+          | .node m => Signal.at s.setSkips (s'.pc t) = some (f, m) ∧
+              (s'.pc t).dlOf = (if e.clock then Signal.relazy true s.now (s.pc t).dlOf else (s.pc t).dlOf)
           | .ret v => s'.pc t = .idle ∧ s'.ret t = some (retVal v)) ∧
     (∀ op, Signal.step s t (.call op) = some s' →
-      (Signal.fnOf op).entry s.flag = some ⟨none, false, .node 0⟩ ∧ Signal.at (s'.pc t) = some (Signal.fnOf op, 0) ∧ s'.flag = s.flag) := by
+      ∃ e, (Signal.fnOf op).entry s.flag = some e ∧ e.store = none ∧ e.func = false ∧ e.next = .node 0 ∧
+        (e.clock = true ↔ ((∃ ms, op = .twait ms) ∧ s.lazyDl = false)) ∧
+        Signal.at s.setSkips (s'.pc t) = some (Signal.fnOf op, 0) ∧ s'.flag = s.flag) := by
   refine ⟨?_, ?_⟩
   · intro alt hs
     simp only [Signal.step] at hs
@@ -187,26 +194,26 @@ theorem signal_step_is_translated_code (s : Signal.St) (t : Tid) (s' : Signal.St
       (repeat' split at hs) <;> simp at hs <;> (try subst hs) <;>
         (refine ⟨_, _, rfl, ?_, ?_⟩ <;> by_cases hf : s.flag = true <;>
           simp_all [Signal.at, Signal.callOf, Signal.completes, Fn.callAt, Fn.after, Signal.Pc.dlOf, retVal, Cfg.RetV.toVal, SyncCfg.signal_set,
-            SyncCfg.signal_reset, upd])
+            SyncCfg.signal_reset, upd, SyncShape.signalSetSkips, SyncShape.signalLazyDeadline, Signal.relazy])
     | wLock dl | wEnter dl | wBlocked dl =>
       simp only [hpc, Signal.loopHead, Signal.goto, Signal.done] at hs
       cases dl <;> (repeat' split at hs) <;> simp at hs <;> (try subst hs) <;>
         (refine ⟨_, _, rfl, ?_, ?_⟩ <;> by_cases hf : s.flag = true <;>
           simp_all [Signal.at, Signal.callOf, Signal.completes, Signal.waitFn, Fn.callAt, Fn.after, Signal.Pc.dlOf, retVal, Cfg.RetV.toVal,
-            SyncCfg.signal_wait, SyncCfg.signal_waitT, upd])
+            SyncCfg.signal_wait, SyncCfg.signal_waitT, upd, SyncShape.signalSetSkips, SyncShape.signalLazyDeadline, Signal.relazy])
     | wUnlock r dl | wRelock dl r =>
       simp only [hpc, Signal.loopHead, Signal.goto, Signal.done] at hs
       rw [hpc] at hwf
       cases dl <;> cases r <;> (first | (exfalso; simp [Signal.PcWf] at hwf; done) | skip) <;> (repeat' split at hs) <;> simp at hs <;> (try subst hs) <;>
         (refine ⟨_, _, rfl, ?_, ?_⟩ <;> by_cases hf : s.flag = true <;>
           simp_all [Signal.at, Signal.callOf, Signal.completes, Signal.waitFn, Fn.callAt, Fn.after, Signal.Pc.dlOf, retVal, Cfg.RetV.toVal,
-            SyncCfg.signal_wait, SyncCfg.signal_waitT, upd])
+            SyncCfg.signal_wait, SyncCfg.signal_waitT, upd, SyncShape.signalSetSkips, SyncShape.signalLazyDeadline, Signal.relazy])
   · intro op hs
     simp only [Signal.step] at hs
     split at hs
     · simp at hs; subst hs
-      cases op <;> cases s.flag <;> simp [Signal.fnOf, Signal.at, Signal.waitFn, Fn.entry, upd, SyncCfg.signal_set, SyncCfg.signal_reset,
-        SyncCfg.signal_wait, SyncCfg.signal_waitT]
+      cases op <;> cases hf : s.flag <;> simp_all [Signal.fnOf, Signal.at, Signal.waitFn, Fn.entry, upd, SyncCfg.signal_set, SyncCfg.signal_reset,
+        SyncCfg.signal_wait, SyncCfg.signal_waitT, SyncShape.signalLazyDeadline, SyncShape.signalSetSkips]
     · simp at hs
 
 /-! ## Monitor -/
@@ -264,7 +271,8 @@ theorem monitor_step_is_translated_code (s : Monitor.St) (t : Tid) (s' : Monitor
           | .node m => Monitor.at s.sigFirst (s'.pc t) = some (f, m) ∧ (s'.pc t).dlOf = (s.pc t).dlOf
           | .ret v => s'.pc t = .idle ∧ s'.ret t = some (retVal v)) ∧
     (∀ op, Monitor.step s t (.call op) = some s' →
-      (Monitor.fnOf op).entry s.flag = some ⟨none, false, .node 0⟩ ∧ Monitor.at s.sigFirst (s'.pc t) = some (Monitor.fnOf op, 0) ∧
+      (∃ e, (Monitor.fnOf op).entry s.flag = some e ∧ e.store = none ∧ e.func = false ∧ e.next = .node 0 ∧
+        (e.clock = true ↔ ∃ ms, op = .twait ms)) ∧ Monitor.at s.sigFirst (s'.pc t) = some (Monitor.fnOf op, 0) ∧
       s'.flag = s.flag ∧ s'.sigFirst = s.sigFirst) := by
   refine ⟨?_, ?_⟩
   · intro alt hs
@@ -330,7 +338,7 @@ def Sem.result (s : Sem.St) (t : Tid) (alt : Nat) : Bool :=
 theorem sem_simple_step_is_translated_code (s : Sem.St) (t : Tid) (s' : Sem.St) (alt : Nat)
     (hp : s.pc t = .post ∨ s.pc t = .wait ∨ s.pc t = .tryWait) (hs : Sem.step s t (.run alt) = some s') :
     ∃ f n, Sem.at (s.pc t) = some (f, n) ∧ f.callAt n = some (Sem.callOf (s.pc t)) ∧
-      f.entry true = some ⟨none, false, .node 0⟩ ∧ f.entry false = some ⟨none, false, .node 0⟩ ∧
+      f.entry true = some ⟨none, false, false, .node 0⟩ ∧ f.entry false = some ⟨none, false, false, .node 0⟩ ∧
       ∃ e v, f.after n (Sem.result s t alt) true = some e ∧ f.after n (Sem.result s t alt) false = some e ∧ e.store = none ∧
         e.next = .ret v ∧ s'.pc t = .idle ∧ s'.ret t = some (retVal v) := by
   simp only [Sem.step] at hs
@@ -341,15 +349,17 @@ theorem sem_simple_step_is_translated_code (s : Sem.St) (t : Tid) (s' : Sem.St) 
 
 /-! ### Semaphore::wait(timeout): the sem_timedwait retry loop and the ENOSYS polling loop -/
 
-def Sem.pollAt : Sem.Pc → Option Nat
-  | .twait _ => some 0
-  | .pollTry _ _ => some 1
-  | .pollSleep _ _ _ => some 2
+/-- `tf` = the variant of this instance (`St.tryFirst`): with the `sem_trywait` fast path that call is node 0 -/
+def Sem.pollAt (tf : Bool) : Sem.Pc → Option Nat
+  | .twTry _ => some 0
+  | .twait _ => some (if tf then 1 else 0)
+  | .pollTry _ _ => some (if tf then 2 else 1)
+  | .pollSleep _ _ _ => some (if tf then 3 else 2)
   | _ => none
 
 /-- the POSIX call a program counter of wait(timeout) stands for (the `usleep` argument is the model's `Poll.sleepUs`) -/
 def Sem.pollCall : Sem.Pc → SCall
-  | .pollTry _ _ => .semTryWait
+  | .pollTry _ _ | .twTry _ => .semTryWait
   | .pollSleep _ _ _ => .usleep Sem.Poll.sleepUs
   | _ => .semTimedWait
 
@@ -363,7 +373,7 @@ def Sem.ctrOf : Sem.Pc → Nat
 def Sem.outcome (s : Sem.St) (t : Tid) (alt : Nat) : Outcome :=
   match s.pc t with
   | .twait _ => if alt = 0 then .ok else if alt = 1 then .eintr else if alt = 3 then .enosys else .other
-  | .pollTry _ _ => if 0 < s.count then .ok else .other
+  | .pollTry _ _ | .twTry _ => if 0 < s.count then .ok else .other
   | _ => .ok
 
 /-- Every step of a thread inside `Semaphore::wait(timeout)` follows the table translated from the current Semaphore.cpp
@@ -373,14 +383,15 @@ def Sem.outcome (s : Sem.St) (t : Tid) (alt : Nat) : Outcome :=
     deciding its loop tests with the new value and the requested time-out — either the next node, which is where the model
     goes (same deadline record, that loop variable, sleep until `now + sleepUs`), or the value the model returns. -/
 theorem sem_timed_wait_step_is_translated_code (s : Sem.St) (t : Tid) (s' : Sem.St) (alt : Nat) (d : Deadline)
-    (hd : (s.pc t).dl = some d) (hs : Sem.step s t (.run alt) = some s') :
-    ∃ n nd, Sem.pollAt (s.pc t) = some n ∧ SyncCfg.semaphore_waitT.nodes[n]? = some nd ∧ nd.call = Sem.pollCall (s.pc t) ∧
+    (htf : s.tryFirst = SyncShape.semTryFirst) (hd : (s.pc t).dl = some d) (hs : Sem.step s t (.run alt) = some s') :
+    ∃ n, Sem.pollAt s.tryFirst (s.pc t) = some n ∧
+      (SyncCfg.semaphore_waitT.nodes[n]?).map (·.call) = some (Sem.pollCall (s.pc t)) ∧
       match SyncCfg.semaphore_waitT.after n (Sem.outcome s t alt) with
       | none => False
       | some e =>
         match e.next.resolve (CtrOp.apply e.ctr (Sem.ctrOf (s.pc t))) d.ms with
-        | .node m => Sem.pollAt (s'.pc t) = some m ∧ (s'.pc t).dl = some d ∧
-            (m ≠ 0 → Sem.ctrOf (s'.pc t) = CtrOp.apply e.ctr (Sem.ctrOf (s.pc t))) ∧
+        | .node m => Sem.pollAt s.tryFirst (s'.pc t) = some m ∧ (s'.pc t).dl = some d ∧
+            ((∃ d' i w, s'.pc t = .pollTry d' i ∨ s'.pc t = .pollSleep d' i w) → Sem.ctrOf (s'.pc t) = CtrOp.apply e.ctr (Sem.ctrOf (s.pc t))) ∧
             (∀ d' i w, s'.pc t = .pollSleep d' i w → w = s.now + Sem.Poll.sleepUs * 1000)
         | .ret b => s'.pc t = .idle ∧ s'.ret t = some (.bool b)
         | .ifLess _ _ => False := by
@@ -390,45 +401,61 @@ theorem sem_timed_wait_step_is_translated_code (s : Sem.St) (t : Tid) (s' : Sem.
   | post => simp [hpc, Sem.Pc.dl] at hd
   | wait => simp [hpc, Sem.Pc.dl] at hd
   | tryWait => simp [hpc, Sem.Pc.dl] at hd
+  | twTry ms => simp [hpc, Sem.Pc.dl] at hd
   | twait d0 =>
     simp only [hpc, Sem.Pc.dl, Option.some.injEq] at hd
     subst hd
     simp only [hpc, Sem.done, Sem.goto] at hs
     (repeat' split at hs) <;> simp at hs <;> (try subst hs) <;>
-      (refine ⟨0, _, rfl, rfl, rfl, ?_⟩ <;>
+      (refine ⟨_, rfl, ?_, ?_⟩ <;> cases htf' : s.tryFirst <;>
         simp_all [Sem.outcome, Sem.pollAt, Sem.pollCall, Sem.ctrOf, Sem.Pc.dl, PollFn.after, CtrOp.apply, PNext.resolve,
           SyncCfg.semaphore_waitT, Sem.Poll.start, Sem.Poll.stepMs, Sem.Poll.sleepUs, Nstd.Generated.SyncSemPoll.start,
-          Nstd.Generated.SyncSemPoll.stepMs, Nstd.Generated.SyncSemPoll.sleepUs, upd])
+          Nstd.Generated.SyncSemPoll.stepMs, Nstd.Generated.SyncSemPoll.sleepUs, upd, SyncShape.semTryFirst])
   | pollTry d0 i =>
     simp only [hpc, Sem.Pc.dl, Option.some.injEq] at hd
     subst hd
     simp only [hpc, Sem.done, Sem.goto] at hs
     (repeat' split at hs) <;> simp at hs <;> (try subst hs) <;>
-      (refine ⟨1, _, rfl, rfl, rfl, ?_⟩ <;>
+      (refine ⟨_, rfl, ?_, ?_⟩ <;> cases htf' : s.tryFirst <;>
         simp_all [Sem.outcome, Sem.pollAt, Sem.pollCall, Sem.ctrOf, Sem.Pc.dl, PollFn.after, CtrOp.apply, PNext.resolve,
           SyncCfg.semaphore_waitT, Sem.Poll.start, Sem.Poll.stepMs, Sem.Poll.sleepUs, Nstd.Generated.SyncSemPoll.start,
-          Nstd.Generated.SyncSemPoll.stepMs, Nstd.Generated.SyncSemPoll.sleepUs, upd])
+          Nstd.Generated.SyncSemPoll.stepMs, Nstd.Generated.SyncSemPoll.sleepUs, upd, SyncShape.semTryFirst])
   | pollSleep d0 i w =>
     simp only [hpc, Sem.Pc.dl, Option.some.injEq] at hd
     subst hd
     simp only [hpc, Sem.done, Sem.goto] at hs
     (repeat' split at hs) <;> simp at hs <;> (try subst hs) <;>
-      (refine ⟨2, _, rfl, rfl, rfl, ?_⟩ <;>
+      (refine ⟨_, rfl, ?_, ?_⟩ <;> cases htf' : s.tryFirst <;>
         simp_all [Sem.outcome, Sem.pollAt, Sem.pollCall, Sem.ctrOf, Sem.Pc.dl, PollFn.after, CtrOp.apply, PNext.resolve,
           SyncCfg.semaphore_waitT, Sem.Poll.start, Sem.Poll.stepMs, Sem.Poll.sleepUs, Nstd.Generated.SyncSemPoll.start,
-          Nstd.Generated.SyncSemPoll.stepMs, Nstd.Generated.SyncSemPoll.sleepUs, upd]) <;>
+          Nstd.Generated.SyncSemPoll.stepMs, Nstd.Generated.SyncSemPoll.sleepUs, upd, SyncShape.semTryFirst]) <;>
       (try simp [Nat.not_lt.mpr ‹_ ≤ _›])
 
-/-- beginning `wait(timeout)` enters the table at its entry (node 0, no counter operation) -/
-theorem sem_timed_wait_entry_is_translated_code :
-    SyncCfg.semaphore_waitT.entry = some ⟨none, .node 0⟩ ∧ SyncCfg.semaphore_waitT.nodes.length = 3 ∧
-    ∀ (s : Sem.St) (t : Tid) (ms : Nat) (s' : Sem.St), Sem.step s t (.call (.twait ms)) = some s' → Sem.pollAt (s'.pc t) = some 0 := by
-  refine ⟨by decide, by decide, ?_⟩
-  intro s t ms s' hs
-  simp only [Sem.step] at hs
-  split at hs
-  · simp at hs; subst hs; simp [Sem.pollAt, upd]
-  · simp at hs
+/-- beginning `wait(timeout)` enters the table at its entry (node 0, no counter operation); in the try-first variant node 0 is
+    the `sem_trywait` fast path: success returns true with one unit taken, failure (count zero) goes on to node 1, the
+    `sem_timedwait`, with a deadline computed from the clock as it is then -/
+theorem sem_timed_wait_entry_is_translated_code (s : Sem.St) (t : Tid) (htf : s.tryFirst = SyncShape.semTryFirst) :
+    SyncCfg.semaphore_waitT.entry = some ⟨none, .node 0⟩ ∧
+    SyncCfg.semaphore_waitT.nodes.length = (if SyncShape.semTryFirst then 4 else 3) ∧
+    (∀ ms s', Sem.step s t (.call (.twait ms)) = some s' → Sem.pollAt s.tryFirst (s'.pc t) = some 0 ∧
+      (SyncCfg.semaphore_waitT.nodes[0]?).map (·.call) = some (Sem.pollCall (s'.pc t))) ∧
+    (∀ ms alt s', s.pc t = .twTry ms → s.tryFirst = true → Sem.step s t (.run alt) = some s' →
+      match SyncCfg.semaphore_waitT.after 0 (Sem.outcome s t alt) with
+      | some ⟨none, .ret b⟩ => b = true ∧ s'.pc t = .idle ∧ s'.ret t = some (.bool true) ∧ s'.count + 1 = s.count
+      | some ⟨none, .node m⟩ => Sem.pollAt s.tryFirst (s'.pc t) = some m ∧ s'.pc t = .twait (mkDeadline s.now ms) ∧ s'.count = s.count
+      | _ => False) := by
+  refine ⟨by decide, by decide, ?_, ?_⟩
+  · intro ms s' hs
+    simp only [Sem.step] at hs
+    split at hs
+    · simp at hs; subst hs
+      cases h : s.tryFirst <;> simp_all [Sem.pollAt, Sem.pollCall, upd, SyncShape.semTryFirst, SyncCfg.semaphore_waitT]
+    · simp at hs
+  · intro ms alt s' hpc htrue hs
+    rw [htrue] at htf
+    simp only [Sem.step, hpc, Sem.done, Sem.goto] at hs
+    (repeat' split at hs) <;> simp at hs <;> (try subst hs) <;>
+      simp_all [Sem.outcome, Sem.pollAt, PollFn.after, SyncCfg.semaphore_waitT, SyncShape.semTryFirst, upd] <;> omega
 
 /-! ## Thread (Thread.cpp, Thread.hpp): the handle `thread` of Thread object `j` plays the role of the flag -/
 
@@ -506,15 +533,17 @@ theorem thread_step_is_translated_code (val : Nat → Nat) (s : Thr.St) (t : Tid
 
 /-- every step of every schedule of the Signal system follows the code translated from the current Signal.cpp -/
 theorem signal_reachable_steps_follow_translated_code {set0 : Bool} {now spur : Nat} {s : Signal.St}
-    (h : Signal.Reach set0 now spur s) (t : Tid) (s' : Signal.St) (alt : Nat) (hs : Signal.step s t (.run alt) = some s') :
-    ∃ f n, Signal.at (s.pc t) = some (f, n) ∧ f.callAt n = some (Signal.callOf (s.pc t)) ∧
+    (h : Signal.Reach set0 now spur s) (hsk : s.setSkips = SyncShape.signalSetSkips) (hlz : s.lazyDl = SyncShape.signalLazyDeadline)
+    (t : Tid) (s' : Signal.St) (alt : Nat) (hs : Signal.step s t (.run alt) = some s') :
+    ∃ f n, Signal.at s.setSkips (s.pc t) = some (f, n) ∧ f.callAt n = some (Signal.callOf (s.pc t)) ∧
       match Signal.completes (s.pc t) with
-      | none => Signal.at (s'.pc t) = some (f, n) ∧ s'.flag = s.flag ∧ (s'.pc t).dlOf = (s.pc t).dlOf
+      | none => Signal.at s.setSkips (s'.pc t) = some (f, n) ∧ s'.flag = s.flag ∧ (s'.pc t).dlOf = (s.pc t).dlOf
       | some ok => ∃ e, f.after n ok s.flag = some e ∧ s'.flag = e.store.getD s.flag ∧
           match e.next with
-          | .node m => Signal.at (s'.pc t) = some (f, m) ∧ (s'.pc t).dlOf = (s.pc t).dlOf
+          | .node m => Signal.at s.setSkips (s'.pc t) = some (f, m) ∧
+              (s'.pc t).dlOf = (if e.clock then Signal.relazy true s.now (s.pc t).dlOf else (s.pc t).dlOf)
           | .ret v => s'.pc t = .idle ∧ s'.ret t = some (retVal v) :=
-  (signal_step_is_translated_code s t s' (Signal.pcWf_reach h t)).1 alt hs
+  (signal_step_is_translated_code s t s' (Signal.pcWf_reach h t) hsk hlz).1 alt hs
 
 /-- every step of every schedule of the Monitor system whose `set()` has the order of the current Monitor.cpp follows the
     code translated from the current Monitor.cpp -/
